@@ -371,6 +371,29 @@ func checkProperty(p *Program, prop, tier string, timeoutS, workers int, start t
 			callees[c] = true
 		}
 	}
+	// assumptions stated in the theories in use ("; ASSUME <id>: text" lines) and preconditions of the entry points
+	// (handlers, EndBlocker, genesis): nothing inside the module establishes those, so they are assumptions on the caller
+	for _, r := range results {
+		for _, th := range r.Theories {
+			for _, l := range strings.Split(p.theories[th], "\n") {
+				l = strings.TrimSpace(l)
+				if strings.HasPrefix(l, "; ASSUME ") {
+					trusted["theory "+th+": "+strings.TrimPrefix(l, "; ASSUME ")] = true
+				}
+			}
+		}
+		if r.Contract != nil && r.Contract.Kind == "func" && isEntryPoint(r.Contract.Short) {
+			for _, rq := range r.Contract.Requires {
+				inv := ""
+				for _, e := range r.Contract.Ensures {
+					if e.Label == rq.Label+"_kept" {
+						inv = " [invariant: re-established by this function on success]"
+					}
+				}
+				trusted["entry precondition of "+r.Contract.Short+": "+rq.Label+" ("+truncate(rq.Src, 140)+")"+inv] = true
+			}
+		}
+	}
 	for _, oc := range outs {
 		if oc.Obl.Cover {
 			nCover++
@@ -506,4 +529,10 @@ func lemmaDeps(l *Contract) []string {
 		}
 	}
 	return out
+}
+
+// isEntryPoint: functions called by the SDK (router, end blocker, genesis), whose preconditions no caller in the module proves.
+func isEntryPoint(short string) bool {
+	return strings.HasPrefix(short, "handleMsg") || short == "EndBlocker" || short == "PrepForZeroHeightGenesis" ||
+		short == "InitGenesis" || short == "ExportGenesis"
 }
